@@ -29,6 +29,10 @@ def kwargs_of(opts):
         kw['nbkpts'] = int(opts['nbkpts'])
     if 'bkspace' in opts:
         kw['bkspace'] = float(opts['bkspace'])
+    if 'everyn' in opts:
+        kw['everyn'] = int(opts['everyn'])
+    if 'placed' in opts:
+        kw['placed'] = np.array(opts['placed'], dtype='d')
     return kw
 
 
